@@ -43,15 +43,17 @@ JudgeFin(ev, i, p, n, mall) ==
            \/ Report("C02", "missed_mall_psbt", ev, i, ev.op))
 
 \* order independence: same descriptor + same set state + same mode => same outcome
-MemoKey(i, p, mall) == [d |-> descs[i], st |-> SetState(p), mall |-> mall]
+\* (the transaction environment is part of the key: histories are replayed under several)
+MemoKey(ev, i, p, mall) == [d |-> descs[i], st |-> SetState(p), mall |-> mall, env |-> ev.env]
+Outcome(n) == [f |-> n.final, w |-> IF n.final THEN n.fin.stack ELSE <<>>]
 MemoOK(ev, i, p, n, mall) ==
   p.final \/
-  LET key == MemoKey(i, p, mall)
-      out == IF n.final THEN n.fin.stack ELSE "none"
+  LET key == MemoKey(ev, i, p, mall)
+      out == Outcome(n)
       old == {m \in memo : m.key = key}
   IN \A m \in old : m.out = out \/ Report("C14", "outcome_depends_on_order", ev, i, [now |-> out, before |-> m.out])
-MemoAdd(i, p, n, mall) ==
-  IF p.final THEN {} ELSE {[key |-> MemoKey(i, p, mall), out |-> IF n.final THEN n.fin.stack ELSE "none"]}
+MemoAdd(ev, i, p, n, mall) ==
+  IF p.final THEN {} ELSE {[key |-> MemoKey(ev, i, p, mall), out |-> Outcome(n)]}
 
 PStep(ev) ==
   LET st == ev.state
@@ -94,8 +96,8 @@ Next ==
      /\ PStep(ev) = TRUE
      /\ cur' = ev.state
      /\ descs' = IF ev.op = "reset" THEN ev.inputs ELSE descs
-     /\ memo' = IF ev.op = "finalize" THEN memo \cup UNION {MemoAdd(i, cur[i], ev.state[i], ev.mall) : i \in 1..Len(ev.state)}
-                ELSE IF ev.op = "finalize_inp" THEN memo \cup MemoAdd(ev.i, cur[ev.i], ev.state[ev.i], ev.mall)
+     /\ memo' = IF ev.op = "finalize" THEN memo \cup UNION {MemoAdd(ev, i, cur[i], ev.state[i], ev.mall) : i \in 1..Len(ev.state)}
+                ELSE IF ev.op = "finalize_inp" THEN memo \cup MemoAdd(ev, ev.i, cur[ev.i], ev.state[ev.i], ev.mall)
                 ELSE memo
   /\ l' = l + 1
 
